@@ -197,11 +197,15 @@ func Encode(val interface{}, opts Options) ([]byte, error) {
 // EncodeInto is like Encode but uses a user-supplied buffer instead of allocating
 // a new one.
 func EncodeInto(buf *[]byte, val interface{}, opts Options) error {
+	old := len(*buf)
 	err := encodeIntoCheckRace(buf, val, opts)
 	if err != nil {
 		return err
 	}
-	*buf = encodeFinish(*buf, opts)
+	/* post-process the appended part only, the prefix belongs to the caller */
+	if opts&(EscapeHTML|ValidateString) != 0 {
+		*buf = append((*buf)[:old], encodeFinish((*buf)[old:], opts)...)
+	}
 	return err
 }
 
